@@ -50,13 +50,16 @@ CommitEnd(ok) == /\ phase = "committing"
 
 \* the execution returns to the caller (a commit that fails by panicking never reports CommitEnd:
 \* the failure is then observed directly from the committing phase)
-End(ok) == /\ IF ok
+EndX(ok, hostFailed) ==
+           /\ IF ok
               THEN \/ kind = "script" /\ phase = "ended_ok"
                    \/ kind = "tx" /\ phase = "committed"
               ELSE /\ phase \in {"running", "ended_err", "ended_ok", "committing", "commit_failed"}
                    /\ (phase = "ended_ok" => kind = "script")    \* a script can still fail exporting its result
-                   /\ nwrites = 0                                \* a failed execution issued no register write
+                   /\ (nwrites = 0 \/ hostFailed)                \* a failed execution issued no register write
+                                                                 \* (unless the host itself failed in mid-commit)
            /\ phase' = "idle" /\ nexec' = nexec + 1 /\ UNCHANGED <<kind, nwrites>>
+End(ok) == EndX(ok, FALSE)
 
 LNext == \/ \E k \in Kinds : Begin(k)
          \/ Read \/ AllocIndex \/ CodeUpdate \/ OtherCall
